@@ -36,7 +36,7 @@ def main(argv=None):
     hist = [D.random_plain_input(rng, rng.randint(3, 4), rng.randint(2, 4)) for _ in range(6 if q else 40)]
     hist_u = [SR.random_super_input(rng, rng.randint(3, 4), rng.randint(2, 3), rng.randint(2, 3), False) for _ in range(4 if q else 30)]
     sim_p = SR.simulated_inputs(rng, 30 if q else 300, 5, 5, 0, False)
-    sim_u = SR.simulated_inputs(rng, 30 if q else 300, 5, 4, 3, False)
+    sim_u = SR.simulated_inputs(rng, 40 if q else 900, 5 if q else 6, 3, 4, False)
     sections = [
         ("simulated inputs: thl, exh (dup, hgt symbolic)", [(d, SR.runs_for(["thl", "exh"], pol, FLAGS, "dhs")) for d in sim_p], False),
         ("simulated inputs: base_uspfs, superdtl (dup, hgt, sloss symbolic)", [(d, SR.runs_for(["base_uspfs", "superdtl"], pol, FLAGS, "dhs", inf_too=False)) for d in sim_u], False),
